@@ -129,3 +129,7 @@ func VerifHarness_C01_LegacyOptions() {
 	c01Shape(db, res, limit, "SearchWithOptions")
 	verifReach("checked")
 }
+
+// the cached-answer path: an answer cached before the database was replaced (possibly while
+// the cache was switched off) is never returned for the new database
+func VerifHarness_C01_CachedOffOn() { VerifHarness_C05_OffOn() }
